@@ -68,8 +68,8 @@ fn gen_str(rng: &mut Rng) -> Vec<u8> {
     (0..n)
         .map(|_| match style {
             0 => rng.u8(),
-            1 => *rng.pick(&[b' ', b'"', b'\\', b';', b'(', b')', b'\t', b'\n', b'@', b'$', 0, 0x7f, 0xff]),
-            _ => *rng.pick(b"abcdefghijklmnopqrstuvwxyz0123456789 =-._"),
+            1 => *rng.pick(&[b' ', b'"', b'\\', b';', b'(', b')', b'\t', b'\n', b'@', b'$', b'#', 0, 0x7f, 0xff]),
+            _ => *rng.pick(b"abcdefghijklmnopqrstuvwxyz0123456789 =-._#"),
         })
         .collect()
 }
@@ -292,6 +292,11 @@ fn str_text(rng: &mut Rng, s: &[u8]) -> String {
         } else if !printable || (rng.chance(1, 10)) {
             t.push_str(&format!("\\{:03}", c));
         } else if !quoted && matches!(c, b';' | b'(' | b')' | b'@' | b'$') {
+            t.push('\\');
+            t.push(c as char);
+        } else if !c.is_ascii_digit() && rng.chance(1, 10) && (c != b'#' || (!quoted && s.len() > 1)) {
+            // a backslash before any other printable character stands for that character
+            // (`\#` alone is the RFC 3597 marker; glued to more characters it is an escaped '#')
             t.push('\\');
             t.push(c as char);
         } else {
